@@ -7,7 +7,7 @@ from callgraph import CallGraph
 from rules.common import adt_base, Anchors, path_calls, ret_kind, root_param, arg_loc
 import stdmodel as SM
 
-LEVEL = 'proof'
+LEVEL = 'other'       # was 'proof': seeded changes twice found a channel the reduction had not listed (DESIGN.md §7.6), so the honest level is structural
 NEED_FIXTURE = True
 ROLES = ['lib']
 EXPLANATION = ('Reduction (DESIGN.md C07): the builder observes the sink only through the byte counter of its io::Write adapter. '
